@@ -472,6 +472,15 @@ func (s *SMSValidator) validateCode(w http.ResponseWriter, r *http.Request, user
 
 		logger.Infof("user %s disabled sms 2fa", user.GetPID())
 	case PageSMSValidate:
+		// The second step completes a login: give the modules that can veto a
+		// login (lock, confirm) the same chance they get at the first step.
+		r = r.WithContext(context.WithValue(r.Context(), authboss.CTXKeyUser, user))
+		if handled, err := s.Authboss.Events.FireBefore(authboss.EventAuth, w, r); err != nil {
+			return err
+		} else if handled {
+			return nil
+		}
+
 		authboss.PutSession(w, authboss.SessionKey, user.GetPID())
 		authboss.PutSession(w, authboss.Session2FA, "sms")
 
